@@ -110,6 +110,23 @@ class ObjFlow:
         return out
 
     def _from_value(self, v, at=None):
+        # an object that travels wrapped (`let m: Option<Message> = if .. { Some(build()) } else { None }; if let Some(m) = m`)
+        if v[0] == "phi":
+            out = []
+            for alt_ in v[3]:
+                for st in self._from_value(alt_, at):
+                    if st not in out and not (len(st) == 1 and isinstance(self.vals[st.get("*", 0)], tuple) and self.vals[st.get("*", 0)][0] == "opaque" and str(self.vals[st.get("*", 0)][1]).startswith("none")):
+                        out.append(st)
+            return out or [{"*": self.vid(("opaque", "init:phi"))}]
+        if v[0] == "vfield" and v[2].endswith("Option::Some") and v[3] == 0:
+            base = v[1]
+            if base[0] == "phi":
+                from .an import mk_vfield
+                return self._from_value(("phi", base[1], base[2], tuple(mk_vfield(x, v[2], 0) for x in base[3])), at)
+            if base[0] == "enum" and base[2] == "None":
+                return [{"*": self.vid(("opaque", "none"))}]
+            if base[0] == "call":
+                return self._from_value(base, at)
         if v[0] == "call" and v[1].endswith("Clone>::clone") and len(v[2]) == 1 and v[2][0][0] == "local":
             # `let mut m = template.clone();` -- a copy of an object built in place continues from its state
             v = v[2][0]
@@ -296,6 +313,13 @@ def return_template(prog, fn, adt, depth=0):
             continue
         v = a.expr_local(0, (bi, "term"))
         objs = []
+        # the object returned as a struct literal (`Progress { matched: 0, .. }`, possibly wrapped in Some)
+        for x in walk(v):
+            if x[0] == "adt" and (x[1].endswith("::" + adt + "::" + adt) or x[1].endswith("::" + adt)) and x[2] and all(isinstance(n, str) and not n.isdigit() for n, _ in x[2]):
+                st = {n: e for n, e in x[2]}
+                if st not in out:
+                    out.append(st)
+                break
         for x in walk(v):
             if x[0] in ("local", "param") and len(x) == 3 and isinstance(x[1], int):
                 la = fn.body.local_adt(x[1])
@@ -363,8 +387,54 @@ class Template:
         return show(v) if v not in (DEFAULT, UNCHANGED, UNINIT) else v[0]
 
 
+def _unwrapped_objects(e, depth=0):
+    """the objects an expression may denote when it is unwrapped out of Option values joined from several branches:
+    `(phi(None | Some{0: m1} | Some{0: m2}) as Some).0` -> [m1, m2]"""
+    if depth > 6:
+        return None
+    if e[0] == "vfield" and e[2].endswith("Option::Some") and e[3] == 0:
+        b = e[1]
+        if b[0] == "phi":
+            out = []
+            for x in b[3]:
+                r = _unwrapped_objects(("vfield", x, e[2], 0), depth + 1)
+                if r is None:
+                    return None
+                out += [y for y in r if y not in out]
+            return out
+        if b[0] == "enum" and b[2] == "None":
+            return []
+        if b[0] == "adt" and b[1].endswith("Option::Some") and b[2]:
+            return _unwrapped_objects(b[2][0][1], depth + 1)
+        if b[0] == "call":
+            return [b]   # a function returning Option<object>: its return template covers the Some case
+        return None
+    if e[0] == "phi":
+        out = []
+        for x in e[3]:
+            r = _unwrapped_objects(x, depth + 1)
+            if r is None:
+                return None
+            out += [y for y in r if y not in out]
+        return out
+    if e[0] in ("local", "param", "call"):
+        return [e]
+    return None
+
+
 def object_states(prog, fn, obj_expr, at, adt="Message"):
     e = obj_expr
+    if e[0] in ("vfield", "phi"):
+        objs = _unwrapped_objects(e)
+        if objs and all(o[0] in ("local", "param", "call") for o in objs) and objs != [e]:
+            sts, vias = [], []
+            for o in objs:
+                s1, via = object_states(prog, fn, o, at, adt)
+                if not s1:
+                    return None, "unknown"
+                sts += [x for x in s1 if x not in sts]
+                vias.append(via)
+            return sts, "unwrapped:" + ",".join(sorted(set(vias)))
     if e[0] == "local":
         fl = ObjFlow(prog, fn, e, adt, UNINIT)
         return fl.states_at(at), "in-place"
